@@ -21,3 +21,4 @@ def run(chk):
     F.rule_progress_metadata_guard(chk, ev, "C09.7")
     X.rule_trigger_complements_guard(chk, "C09.8")
     X.rule_predecessor_keeps_absolute(chk, "C09.9")
+    X.rule_keystream_length(chk, "C09.10")
